@@ -1,5 +1,6 @@
 import MetricsVerif.Driver.Util
 import MetricsVerif.Model.StatsdFwd
+import MetricsVerif.Generated.SourceFacts
 
 /-!
 Line protocol of the `sfwd` component (C09, the forwarder's client state machine).
@@ -12,6 +13,12 @@ Line protocol of the `sfwd` component (C09, the forwarder's client state machine
     sfwd wire                            → per socket ever made, oldest first:
                                            stream:   <bytes>/<fnv1a>/<complete frames>/<fnv1a of the frame bodies>/<rest bytes>
                                            datagram: <datagrams>/<fnv1a of their concatenation>  (all sockets together)
+    sfwd cycle <len>:<c0|c1>:<full|f<k>>,…  → sent=<n> bytes_sent=<n> dropped=<n> dropped_writer=<n> bytes_dropped=<n>
+                                           bytes_dropped_writer=<n> rx=<whole payloads received so far>/<their bytes> ready|disc
+                                           (one flush cycle of `Forwarder::run` on the current client: the payload loop
+                                            with cleared counters; payloads are given by their lengths)
+    sfwd udp <v4|v6>,…                   → connect=ok|refused     (the UDP client of the CURRENT source — the bind call
+                                           is read from Generated.dsd_udp_bind — towards addresses of these families)
 -/
 namespace MetricsVerif.Driver.StatsdFwd
 open MetricsVerif.Driver MetricsVerif.Statsd MetricsVerif.StatsdFwd
@@ -60,6 +67,27 @@ def handle (st : Option St) (args : List String) : Option (Option St × String) 
     match o with
     | some k => pure (some { st with fwd := s' }, s!"ok {k} {state}{n}")
     | none => pure (some { st with fwd := s' }, s!"err {state}{n}")
+  | ["cycle", items] => do
+    let st ← st
+    let parseItem (t : String) : Option (Bytes × Env) :=
+      match t.splitOn ":" with
+      | [len, c, w] => do
+        let len ← len.toNat?
+        let c ← (if c == "c1" then some true else if c == "c0" then some false else none)
+        let w ← (if w == "full" then some WriteRes.full
+                 else if w.startsWith "f" then (w.drop 1).toNat?.map WriteRes.fail else none)
+        pure (List.replicate len 0, ⟨c, w⟩)
+      | _ => none
+    let ops ← (if items == "." then some [] else (items.splitOn ",").mapM parseItem)
+    let (s', c) := cycle st.fwd SendCounts.zero ops
+    let got := (conns s').flatMap rxDgram
+    let state := if s'.ready.isSome then "ready" else "disc"
+    pure (some { st with fwd := s' },
+      s!"sent={c.packetsSent} bytes_sent={c.bytesSent} dropped={c.packetsDropped} dropped_writer={c.packetsDroppedWriter} bytes_dropped={c.bytesDropped} bytes_dropped_writer={c.bytesDroppedWriter} rx={got.length}/{got.flatten.length} {state}")
+  | ["udp", fams] => do
+    let fams ← (fams.splitOn ",").mapM (fun f => if f == "v4" then some Family.v4 else if f == "v6" then some Family.v6 else none)
+    let b ← udpBindOfSource Generated.dsd_udp_bind
+    pure (st, if udpConnects b fams then "connect=ok" else "connect=refused")
   | ["wire"] => do
     let st ← st
     if st.fwd.stream then pure (some st, showList (showConn true) (conns st.fwd))
